@@ -27,6 +27,7 @@ import os
 import random
 import sys
 import json
+import re
 from collections import Counter
 
 sys.path.insert(0, os.path.dirname(os.path.dirname(os.path.abspath(__file__))))
@@ -200,6 +201,63 @@ def counter_diff(a, b, limit=6):
   return out
 
 
+def user_formulas(e):
+  out = {}
+  for t in eng.user_tables(e):
+    for (cid, ctype, is_formula, formula) in eng.schema_columns(e, t):
+      if formula: out["%s.%s" % (t, cid)] = formula
+  return out
+
+
+SWALLOWS = re.compile(r"\b(IFERROR|ISERROR|ISERR)\b|\btry\s*:|\bexcept\b")
+LOOKUP_KEY = re.compile(r"(?:lookupRecords|lookupOne|PREVIOUS|NEXT|RANK)\s*\(([^()]*(?:\([^()]*\)[^()]*)*)\)")
+
+
+def special_cycles(diff_lines, formulas):
+  """Static (by-name, table-blind) column reference graph of the document.  Returns the set of
+  kinds {'swallow', 'lookup'} such that EVERY differing column lies on, or depends on, a cycle that
+  passes through a column whose formula swallows exceptions ('swallow') / does a lookup keyed or
+  ordered by a column of that same cycle ('lookup')."""
+  by_name = {}
+  for key, f in formulas.items():
+    by_name.setdefault(key.split(".", 1)[1], []).append(f)
+  names = set(by_name)
+  words = lambda f: set(w for w in re.findall(r"[A-Za-z_][A-Za-z_0-9]*", f) if w in names)
+  graph = {n: set(w for f in fs for w in words(f)) for n, fs in by_name.items()}
+  def reach(n):
+    seen, todo = set(), list(graph.get(n, ()))
+    while todo:
+      x = todo.pop()
+      if x in seen: continue
+      seen.add(x); todo.extend(graph.get(x, ()))
+    return seen
+  reachable = {n: reach(n) for n in names}
+  def scc(n):
+    return set(x for x in reachable[n] if n in reachable[x]) | ({n} if n in reachable[n] else set())
+  def kinds_of_cycle(members):
+    out = set()
+    for x in members:
+      for f in by_name.get(x, ()):
+        if SWALLOWS.search(f): out.add("swallow")
+        for m in LOOKUP_KEY.finditer(f):
+          if words(m.group(1)) & members: out.add("lookup")
+    return out
+  cols = set()
+  for l in diff_lines:
+    m = re.search(r"([A-Za-z_][A-Za-z_0-9]*)\.([A-Za-z_][A-Za-z_0-9]*)\[", l) or \
+        re.search(r"'([A-Za-z_][A-Za-z_0-9]*)', \d+, '([A-Za-z_][A-Za-z_0-9]*)'", l)
+    if m: cols.add(m.group(2))
+  if not cols: return set()
+  result = None
+  for c in cols:
+    kinds = set()
+    for x in (reachable.get(c, set()) | {c}):
+      if x in names and x in reachable[x]:
+        kinds |= kinds_of_cycle(scc(x))
+    result = kinds if result is None else (result & kinds)
+  return result or set()
+
+
 def error_kinds(diff_lines):
   return sorted(set(x for l in diff_lines for x in
                     ("CircularRefError", "TypeError", "AttributeError", "KeyError") if x in l))
@@ -228,6 +286,13 @@ MY_SEEDS = {
      ["BulkAddRecord", "A", [None, None, None], {"n": [1, 2, 3], "r": [1, 2, 2]}],
      ["BulkUpdateRecord", "B", [1, 2, 3], {"back": [2, 3, 1]}]],
   ],
+  "c06_rows": [     # dependencies that cross rows and columns in both directions, without a cycle
+    [["AddTable", "A", [_col("n", "Int"), _col("o", "Ref:A"), _col("a", "Any", "$n + ($o.b or 0)"),
+                        _col("b", "Any", "$a if rec.id == 2 else 7"),
+                        _col("c", "Any", "IFERROR($a, -1) + IFERROR($o.b, -1)"),
+                        _col("d", "Any", "try:\n  return $c + $b\nexcept Exception:\n  return -5")]]],
+    [["BulkAddRecord", "A", [1, 2, 3], {"n": [1, 2, 3], "o": [2, 1, 3]}]],
+  ],
   "c06_lookup_cycle": [
     [["AddTable", "A", [_col("n", "Int"), _col("k", "Any", "len(A.lookupRecords(k=$n))"),
                         _col("m", "Any", "A.lookupOne(n=$n + 1).m"),
@@ -244,6 +309,10 @@ CYCLE_FORMULAS = [
   "A.lookupOne(n=$n).f", "A.lookupOne(n=$id).a", "(A.lookupOne(id=$id - 1).a or 0) + 1",
   "(A.lookupOne(id=$id + 1).b or 0) + 1", "len(A.lookupRecords(a=$a))",
   "max([r.n for r in A.all if r.n is not None] or [0])", "$n * 2", "rec.id",
+  # formulas that swallow exceptions: a pending OrderError must not leak into the value
+  "IFERROR($a, -1)", "IFERROR($b, -1) + IFERROR($c, -2)", "IFERROR($o.a, 0)", "$o.b", "$o.a",
+  "try:\n  return $b\nexcept Exception:\n  return -1", "try:\n  v = $c\nexcept:\n  v = -3\nv",
+  "$a if rec.id == 2 else 7", "$n + ($o.b or 0)", "ISERROR($d)", "IF($n > 1, $a, $b)",
 ]
 
 
@@ -252,21 +321,39 @@ CYCLE_FORMULAS = [
 # ------------------------------------------------------------------------------------------------
 
 class C06Monitor(explore.Monitor):
-  seeds = ("c06_cycle", "c06_cross", "c06_lookup_cycle", "basic", "refs", "lookup", "summary",
-           "prevnext")
-  length = 5
+  seeds = ("c06_cycle", "c06_cross", "c06_rows", "c06_lookup_cycle", "basic", "refs", "lookup",
+           "summary")
+  length = 4
   weights = {"modify_formula": 12, "add_formula_col": 8, "to_formula": 4, "update": 14,
              "bulk_update": 8, "add": 8, "remove": 5, "multi": 8, "invalid": 1, "view": 0,
              "label": 0, "meta_update": 1, "add_table": 1, "remove_table": 0, "upsert": 1,
              "replace_data": 1, "summary": 1}
   max_perms_small = 120
   n_sampled = 24
-  history_budget = 150      # quick tier: permuted fork runs per history (deterministic cost cap)
+  history_budget = 90       # quick tier: permuted fork runs per history (deterministic cost cap)
   n_recalc = 4
 
   def __init__(self):
     install_hook()
     self.counts = Counter()
+    self.known = set(k.get("match", {}).get("class") for k in common.load_known_findings("C06"))
+    self.reported = set()      # known-finding classes this worker process has already reported
+
+  def _filter(self, st, failures, bundle, history=()):
+    """A failure whose root-cause class is a listed known finding is returned (hence shrunk and
+    reported by explore) only the first time this worker process meets the class; later
+    occurrences are counted, not re-shrunk, and the history goes on (forks never touch the
+    monitored engine; a lockstep shadow that diverged is dropped).  Unknown classes always pass."""
+    out = []
+    for clause, detail in failures:
+      cls = self.classify(clause, detail, bundle, history)
+      if cls in self.known:
+        if cls in self.reported:
+          self._count(known_class_occurrences_not_reshrunk=1)
+          continue
+        self.reported.add(cls)
+      out.append((clause, detail))
+    return out
 
   def _count(self, **kw):
     """Side channel for run statistics (explore() only aggregates bundles): one small JSON file per
@@ -350,7 +437,8 @@ class C06Monitor(explore.Monitor):
       strategies = list(all_strategies(calls))
       self._count(bundles_all_permutations=1, permuted_runs=len(strategies))
     else:
-      strategies = sampled_strategies(calls, max(4, min(self.n_sampled, left)), st["rng"])
+      n_s = self.n_sampled if common.tier() != "quick" else self.n_sampled // 2
+      strategies = sampled_strategies(calls, max(4, min(n_s, left)), st["rng"])
       self._count(bundles_sampled_permutations=1, permuted_runs=len(strategies))
       if space <= self.max_perms_small:
         self._count(bundles_small_space_sampled_for_budget=1)
@@ -361,6 +449,10 @@ class C06Monitor(explore.Monitor):
       st["perm_runs"] += 1
       fail = self._compare("fork", strat, calls, snap_ref, cells_ref, x_ref, f, g, x)
       if fail:
+        cls = self.classify(fail[0], fail[1], bundle, ())
+        if cls in self.known and cls in self.reported:
+          self._count(known_class_occurrences_not_reshrunk=1)
+          continue               # keep looking at the other permutations of this bundle
         st["fail"].append(fail)
         break
 
@@ -373,27 +465,32 @@ class C06Monitor(explore.Monitor):
     d = eng.diff_snapshots(snap_ref, eng.snapshot(f))
     if d:
       info["diff"] = d
+      info["formulas"] = user_formulas(f)
       return ("C06.same_values", info)
     if g is not None and cells_ref is not None:
       d = counter_diff(cells_ref, stored_cells(g))
       if d:
         info["diff"] = d
+        info["formulas"] = user_formulas(f)
         return ("C06.same_action_multiset", info)
     return None
 
   def after(self, st, e, bundle, group, exc):
-    out = list(st.get("fail") or [])
+    out = self._filter(st, list(st.get("fail") or []), bundle)
     if out:
       return out
     # (a) lockstep shadows
     snap = eng.snapshot(e)
     cells = stored_cells(group) if group is not None else None
-    for strat, f in st["shadows"]:
+    for strat, f in list(st["shadows"]):
       g, x = self._run(f, bundle)
       self._count(lockstep_runs=1)
       fail = self._compare("lockstep", strat, [], snap, cells, exc, f, g, x)
       if fail:
-        return [fail]
+        st["shadows"] = [(s_, f_) for (s_, f_) in st["shadows"] if f_ is not f]
+        out = self._filter(st, [fail], bundle)
+        if out:
+          return out
     # (c) whole-document recalculation under sampled pi
     if exc is None and group is not None and group.stored:
       try:
@@ -417,13 +514,23 @@ class C06Monitor(explore.Monitor):
                                         "error": repr(x)})]
           fail = self._compare("recalc", strat, calls, snap_ref, cells_ref, None, f, g, None)
           if fail:
-            return [fail]
+            out = self._filter(st, [fail], bundle)
+            if out:
+              return out
+            break
     return []
 
   def nontrivial(self, st, bundle, group, exc):
     return st.get("last_space", 1) > 1
 
   def classify(self, clause, detail, bundle, history):
+    diff0 = detail.get("diff") or []
+    if any("CircularRefError" in l for l in diff0):
+      kinds = special_cycles(diff0, detail.get("formulas") or {})
+      if "swallow" in kinds:
+        return "cycle-through-error-swallowing-formula"
+      if "lookup" in kinds:
+        return "cycle-through-lookup-on-own-column"
     kinds = sorted(set(a[0] for a in bundle))
     diff = detail.get("diff") or [detail.get("error", "")]
     return "%s|%s|%s|%s" % (clause, detail.get("how"), ",".join(kinds), ",".join(error_kinds(diff)))
@@ -434,7 +541,7 @@ def main():
   rep.assumptions += [
     common.SHIM_ASSUMPTION,
     "bounded: seeded random histories (vlib/rtc/gen.py alphabet plus cycle-creating formula edits) "
-    "over 8 seed documents, 3 of them with circular references; not a proof",
+    "over 8 seed documents, 3 of them with circular references and one with cross-row dependencies; not a proof",
     "the ghost parameter pi permutes the list returned by the real Engine._make_sorted_work_items "
     "(wrapped at class level) keeping '#lookup' items at the end of the list (popped first), which "
     "is the engine's own rule; nested re-ordering driven by OrderError is the engine's own",
@@ -446,7 +553,10 @@ def main():
     "one evaluation = one user bundle applied to the real engine; for each, (a) 2 lockstep shadow "
     "engines with reversed / random work-item order, (b) forks of the pre-state under EVERY "
     "permutation when the bundle's permutation space is <= 120 (<= 5 dirty nodes per call), 24 "
-    "sampled otherwise (quick tier: at most 150 permuted fork runs per history, after which small spaces are sampled too; counted in order_statistics), (c) load+Calculate of the post-state under 4 sampled permutations; "
+    "sampled otherwise (quick tier: 12 sampled, and at most 90 permuted fork runs per history, after which small spaces are sampled too; counted in order_statistics), (c) load+Calculate of the post-state under 4 sampled permutations; a root-cause class that is a "
+    "listed known finding is reported (and shrunk) once per worker process, later occurrences are "
+    "only counted (order_statistics.known_class_occurrences_not_reshrunk) and the history goes "
+    "on; "
     "non-trivial = the bundle's reference run had a permutation space > 1 (at least one call of "
     "_make_sorted_work_items with >= 2 permutable nodes)")
   import tempfile, shutil, glob
@@ -454,7 +564,7 @@ def main():
   os.environ["C06_STATS_DIR"] = stats_dir
   try:
     explore.explore(rep, "checks.C06", "C06Monitor", n_quick=48, n_thorough=2400,
-                    budget_quick_s=30, budget_thorough_s=800)
+                    budget_quick_s=25, budget_thorough_s=800)
     tot = Counter()
     for p in glob.glob(os.path.join(stats_dir, "*.json")):
       try:
